@@ -51,18 +51,42 @@ type Finding struct {
 
 const Root = "/verif"
 
+// loadFindings parses /verif/known_findings.txt. Lines:
+//
+//	known: property=<id> signature=<sig> <what fails>
+//	fixed: property=<id> <commit> <what failed>
+//
+// Only "known" lines suppress anything, and only the exact signature.
 func loadFindings() []Finding {
-	b, err := os.ReadFile(filepath.Join(Root, "known_findings.json"))
+	b, err := os.ReadFile(filepath.Join(Root, "known_findings.txt"))
 	if err != nil {
 		return nil
 	}
-	var f struct {
-		Findings []Finding `json:"findings"`
+	var out []Finding
+	for _, l := range strings.Split(string(b), "\n") {
+		l = strings.TrimSpace(l)
+		if !strings.HasPrefix(l, "known:") {
+			continue
+		}
+		f := Finding{Status: "known"}
+		rest := strings.Fields(strings.TrimPrefix(l, "known:"))
+		var what []string
+		for _, w := range rest {
+			switch {
+			case strings.HasPrefix(w, "property=") && f.Property == "":
+				f.Property = strings.TrimPrefix(w, "property=")
+			case strings.HasPrefix(w, "signature=") && f.Signature == "":
+				f.Signature = strings.TrimPrefix(w, "signature=")
+			default:
+				what = append(what, w)
+			}
+		}
+		f.What = strings.Join(what, " ")
+		if f.Property != "" && f.Signature != "" {
+			out = append(out, f)
+		}
 	}
-	if json.Unmarshal(b, &f) != nil {
-		return nil
-	}
-	return f.Findings
+	return out
 }
 
 // ChildMain is the entry of a shard process: harness child <id> <shard> <n> <dir>.
